@@ -23,7 +23,7 @@ RULE = ("Hypothesis draws a history (<= 10 steps) over a pool of Molecules table
         "out-of-range / negative integer index). A list-of-rows model is advanced in lock step and every live "
         "table is compared with its model after every step. Non-trivial = >= 3 operations including one "
         "data-frame path and one numpy path on a table with >= 2 feature columns.")
-RULE += (" " + "Also: boolean list / boolean Series masks in subset, nulls in the cutby column, concat of iterators / generators, op 'alias_append' (copy / concat of one / concat_with(empty), then an in-place append to either table), op 'df_append_df' (data-frame operation, in-place append, data-frame operations again), 0-row feature frames as a rejected input. Round 7: with_features of a polars literal, also on tables without feature columns.")
+RULE += (" " + "Also: boolean list / boolean Series masks in subset, nulls in the cutby column, concat of iterators / generators, op 'alias_append' (copy / concat of one / concat_with(empty), then an in-place append to either table), op 'df_append_df' (data-frame operation, in-place append, data-frame operations again), 0-row feature frames as a rejected input. Round 7: with_features of a polars literal, also on tables without feature columns. Round 8: append of a table with the same feature names in another column order.")
 TOLERANCES = {"position": "exact (float32)", "rotation": "1e-5 rad (float32 rotation-vector round trips)",
               "features": "exact"}
 ASSUMPTIONS = ["polars null semantics: a null predicate drops the row in filter; sort position of nulls is not asserted",
@@ -377,6 +377,9 @@ def judge(d):
                     out.append(viol("C12/append-not-inplace", f"{tag}: append did not return self"))
                 models[ti] = MTable(m2.cols, [dict(uid=r["uid"], f=dict(r["f"])) for r in m2.rows])
             else:
+                if op.get("three") and len(m2.cols) >= 2 and m2.rows:
+                    # round 8: the appended table carries the same feature names in another column order
+                    r2 = Molecules(r2.pos, r2.rotator, features=r2.features.select(list(reversed(r2.features.columns))))
                 res = real.append(r2)
                 if res is not real:
                     out.append(viol("C12/append-not-inplace", f"{tag}: append did not return self"))
